@@ -41,14 +41,18 @@ fn give(tb: &mut csl::TransactionBuilder, certs_j: &[J], wds_j: &[J], props_j: &
     if changed("certs", certs_j) {
         if !certs_j.is_empty() {
             let mut cb = csl::CertificatesBuilder::new();
-            for c in certs_j { cb.add(&mk::cert(c))?; }
+            // (a certificate whose credential is the hash of a native script goes in with that script as its witness)
+            for c in certs_j { match c.get("nw").and_then(|x| x.as_u64()) {
+                Some(k) if mk::cert(c).has_required_script_witness() => cb.add_with_native_script(&mk::cert(c), &csl::NativeScriptSource::new(&mk::pubkey_script(k as u8)))?,
+                _ => cb.add(&mk::cert(c))? } }
             tb.set_certs_builder(&cb);
         } else { tb.remove_certs(); }
     }
     if changed("wds", wds_j) {
         if !wds_j.is_empty() {
             let mut wb = csl::WithdrawalsBuilder::new();
-            for w in wds_j { wb.add(&mk::reward_addr(w["net"].as_u64().unwrap_or(0) as u8, &mk::cred(&w["cred"])), &bn_of(&w["amt_n"]))?; }
+            for w in wds_j { let ra = mk::reward_addr(w["net"].as_u64().unwrap_or(0) as u8, &mk::cred(&w["cred"]));
+                match w.get("nw").and_then(|x| x.as_u64()) { Some(k) => wb.add_with_native_script(&ra, &bn_of(&w["amt_n"]), &csl::NativeScriptSource::new(&mk::pubkey_script(k as u8)))?, None => wb.add(&ra, &bn_of(&w["amt_n"]))? } }
             tb.set_withdrawals_builder(&wb);
         } else { tb.remove_withdrawals(); }
     }
@@ -115,8 +119,12 @@ fn gen(rng: &mut Rng) -> J {
     // credentials repeat in a third of the scenarios: registration and deregistration (in either form) of ONE credential in a transaction
     let few = rng.chance(1, 3);
     let certs: Vec<J> = (0..nc).map(|i| json!({"k": if rng.chance(1, 4) { 3 } else { rng.below(19) }, "cred": {"t":0,"h": if few { 1 + rng.below(2) } else { 1 + i }}, "coin_n": jn(amt(rng)), "pool": 20 + rng.below(2)})).collect();
+    // a quarter of the credentials are script hashes (of the native script "signature of key k"): the ledger charges and refunds them alike
+    let mut certs = certs;
+    for c in certs.iter_mut() { if rng.chance(1, 4) { let k = 1 + rng.below(12); c["cred"] = json!({"t": 1, "hb": jbytes(&mk::pubkey_script(k as u8).hash().to_bytes())}); c["nw"] = json!(k); } }
     let nw = rng.below(3);
-    let wds: Vec<J> = (0..nw).map(|i| json!({"cred": {"t":0,"h": 30 + i}, "net": 0, "amt_n": jn(amt(rng))})).collect();
+    let wds: Vec<J> = (0..nw).map(|i| if rng.chance(1, 4) { let k = 1 + rng.below(12); json!({"cred": {"t": 1, "hb": jbytes(&mk::pubkey_script(k as u8).hash().to_bytes())}, "nw": k, "net": 0, "amt_n": jn(amt(rng))}) }
+                                       else { json!({"cred": {"t":0,"h": 30 + i}, "net": 0, "amt_n": jn(amt(rng))}) }).collect();
     let np = rng.below(3);
     let mut props: Vec<J> = (0..np).map(|i| json!({"dep_n": jn(amt(rng)), "cred": {"t":0,"h": 40 + i}})).collect();
     // a proposal that is already present is added again (the set keeps it once)
